@@ -562,14 +562,40 @@ class Class(S):
 
 
 class Program:
-    def __init__(self, inputs, body, catches=()):
+    """imports: [(libType, name, [item names], separator)] — libType 1 = 导入《name》 (library), 2 = 导入“name” (file);
+    separator = the text after the statement: '\n', or ' ' to put the next 导入 on the same line, or any mix of `；`, blanks and a final
+    '\n' — every `；` that follows a 导入 statement ON ITS LINE belongs to the import section (‹导入语句› [‹间隔符› ‹导入语句›]*) and
+    leaves no empty statement in the tree.
+    header: text written before everything else (blank lines, comment lines): the 导入 statements then stand on later lines.
+    An import node carries the 0-based line its 导入 keyword stands on (ParseProgram: setStmtCurrentLine(stmt, 导入 token))."""
+
+    def __init__(self, inputs, body, catches=(), imports=(), header=''):
         self.inputs, self.body, self.catches = inputs, body, list(catches)
+        self.imports, self.header = list(imports), header
+        self.import_lines = []
 
     def render(self, rng=None):
         r = R(rng)
+        ims = []
+        self.import_lines = []
+        if self.header:
+            r.w(self.header)
+        for ty, name, items, sep in self.imports:
+            line = r.line
+            self.import_lines.append(line)
+            r.w('导入' + ('《%s》' % name if ty == 1 else '“%s”' % name))
+            ids = []
+            for i, n in enumerate(items):
+                r.w('之' if i == 0 else '、')
+                r.w(n)
+                ids.append('(id %d %s)' % (r.line, hx(n)))
+            ims.append('(import %d %d %s (%s))' % (line, ty, hx(name), ' '.join(ids)))
+            r.w(sep)
+        if self.imports and not r.text().endswith('\n'):
+            r.w('\n')
         ex = emit_exec(self.inputs, self.body, self.catches, r, 0)
         self.tags = r.tags
-        return r.text(), '(prog () %s)' % ex
+        return r.text(), '(prog (%s) %s)' % (' '.join(ims), ex)
 
 
 # ---- helpers for inputs ----------------------------------------------------------------------------
